@@ -29,6 +29,7 @@ import (
 	"testing/synctest"
 	"time"
 
+	"github.com/tsuna/gohbase/hrpc"
 	"github.com/tsuna/gohbase/internal/verifsim"
 )
 
@@ -307,6 +308,63 @@ func TestVerifC18(t *testing.T) {
 			})
 			rep.Distinct++
 		}
+	}
+
+	// ---- E. a request that cannot be serialised (no row key: a required field) fails alone - nothing was sent, nothing is
+	// outstanding, the connection stays. The request after it is watched like any other: a silent server is detected one
+	// timeout after it was sent.
+	for _, batched := range []bool{false, true} {
+		name := fmt.Sprintf("E/unserialisable-request-then-silence/batched=%v", batched)
+		verifsim.Bubble(t, func(t *testing.T) {
+			rt := time.Second
+			opts := rcOpts{queueSize: 1, readTimeout: rt}
+			if batched {
+				opts = rcOpts{queueSize: 2, flushInterval: time.Millisecond, readTimeout: rt}
+			}
+			env := newRCEnv(opts)
+			defer env.finish()
+			var bo []func(hrpc.Call) error
+			if !batched {
+				bo = append(bo, hrpc.SkipBatch())
+			}
+			bad, err := hrpc.NewGet(context.Background(), []byte("t"), nil, bo...)
+			if err != nil {
+				rep.bad("harness:c18-e", "%s: %v", name, err)
+				return
+			}
+			bad.SetRegion(env.regionFor("x"))
+			go env.c.QueueRPC(bad)
+			time.Sleep(10 * time.Millisecond)
+			synctest.Wait()
+			select {
+			case r := <-bad.ResultChan():
+				if r.Error == nil {
+					rep.bad("harness:c18-e", "%s: the request without a row key was accepted", name)
+				}
+			default:
+				rep.bad("harness:c18-e", "%s: the request without a row key got no result", name)
+			}
+			if env.isDone() {
+				return // (a client that gives the connection up over it is within its rights)
+			}
+			c2 := env.newCall("e2", "get", batched)
+			env.goQueue(c2)
+			synctest.Wait()
+			start := time.Now()
+			time.Sleep(rt + rt/100)
+			synctest.Wait()
+			env.quiesce()
+			if r, ok := c2.first(); !ok {
+				rep.bad("silent-server-not-detected", "%s: e2 still waiting %v after it was sent to a silent server (a request that could not be serialised "+
+					"had been refused on that connection before)", name, time.Since(start))
+			} else if _, isSrv := r.Error.(ServerError); !isSrv {
+				rep.bad("silent-server-wrong-error", "%s: e2 completed with %v, not a connection-level error", name, r.Error)
+			}
+			time.Sleep(2 * rt)
+			synctest.Wait()
+			o.flush(name, env)
+		})
+		rep.Distinct++
 	}
 
 	// ---- C. random interleavings
